@@ -1114,7 +1114,7 @@ class History:
             if g.edits is None:
                 res.fail(f'{sname}: editlog/reporting-pass-reports-nothing', self.snapshot(), expected='an edit log', got=None)
             elif g.ast is not f.ast and not checked:
-                check_step_log(res, f, g, self.snapshot(), f'{sname}: hist/')
+                check_step_log(res, f, g, self.snapshot(), f'{sname}: ')
         self.versions.append(g)
         self.reporting.append(reporting)
         if not reporting:
